@@ -16,6 +16,10 @@ class Quote(BaseModel):
     price: float
 
 
+class Runaway(BaseException):
+    pass
+
+
 class StubChaperone:
     """fold_enhanced is decided by the generator's declared outcome for that text"""
 
@@ -93,14 +97,20 @@ def swarm(limit_hi):
         workers = []
         steps = {}
         uniq = [0]
+        crashed = []
 
         def factory(name, hints):
+            if len(workers) > limit_hi + 4:
+                raise Runaway()              # far beyond any budget: stop the run instead of looping forever
             steps[name] = 0
             workers.append((name, list(hints)))
 
             def work(task, memory):
                 steps[name] += 1
-                b = c.choice("step", ["novel", "repeat", "marker", "marker_lower"])
+                b = c.choice("step", ["novel", "repeat", "marker", "marker_lower", "crash"])
+                if b == "crash":
+                    crashed.append(name)
+                    raise RuntimeError("worker crashed")
                 if b == "marker":
                     return "ALL DONE here"
                 if b == "marker_lower":
@@ -113,11 +123,18 @@ def swarm(limit_hi):
 
         sw = RegenerativeSwarm(worker_factory=factory, summarizer=lambda m: [f"tried {len(m.task_history)}"],
                                max_steps_per_worker=maxsteps, max_regenerations=maxreg, silent=True)
-        st, res = call_returns(c, "C18.total", "supervise", sw.supervise, "task")
-        if st != "ok":
-            c.fail("C18.total", {"what": "supervise raised", "raised": repr(res)})
+        try:
+            st, res = call_returns(c, "C18.total", "supervise", sw.supervise, "task")
+        except Runaway:
+            c.fail("C18.d", {"what": "worker spawning did not stop (far more than max_regenerations+1 workers)", "workers": len(workers), "crashed": list(crashed)})
             return
-        info = {"workers": len(workers), "steps": dict(steps)}
+        info = {"workers": len(workers), "steps": dict(steps), "crashed": list(crashed)}
+        if st != "ok":
+            # a crashing worker may propagate (the statement bounds spawning, it does not promise recovery) -
+            # but the bounds hold at that moment too
+            c.check("C18.total", st == "raised" and bool(crashed), {"what": "supervise raised without a worker crashing", "raised": repr(res), **info})
+            c.check("C18.d", len(workers) <= maxreg + 1, {"what": "more than max_regenerations+1 workers spawned", **info})
+            return
         c.observe("workers", len(workers))
         c.observe("success", res.success)
         c.check("C18.d", len(workers) <= maxreg + 1, {"what": "more than max_regenerations+1 workers spawned", **info})
@@ -205,7 +222,7 @@ META = {
         "technique": "symbolic execution of the three loops with symbolic limits and adversarial per-call behaviours; z3 for the bound arithmetic",
     },
     "files": ["operon_ai/healing/chaperone_loop.py", "operon_ai/healing/regenerative_swarm.py", "operon_ai/organelles/nucleus.py"],
-    "bounds": {"quick": "max_retries 0..4 x 6 generator behaviours per call (incl. raising RuntimeError / TypeError); max_regenerations, max_steps 0..3 x 4 step behaviours; max_iterations 0..4 x 3 provider behaviours",
+    "bounds": {"quick": "max_retries 0..4 x 6 generator behaviours per call (incl. raising RuntimeError / TypeError); max_regenerations, max_steps 0..3 x 5 step behaviours (incl. a crashing worker); max_iterations 0..4 x 3 provider behaviours",
                "thorough": "max_retries 0..5; others as quick"},
     "outside": ["limits above 4", "step_timeout", "real chaperone (C11)", "entropy threshold other than the default"],
     "float_argument": "confidence decay is concrete float arithmetic (0.1 per retry), only its range [0,1] is asserted",
